@@ -30,6 +30,7 @@ REPO = "/repo"
 REPO_SRC = "/repo/src"
 MASK = 0xFFFFFFFFFFFFFFFF
 NPROC = int(os.environ.get("VERIF_JOBS", "0")) or min(16, os.cpu_count() or 1)
+UNIT_STALL_S = 1500
 
 
 class HarnessError(Exception):
@@ -185,8 +186,13 @@ class Rec:
     def count(self, name, k=1):
         self.n[name] += k
 
-    def mark(self, name, obj):
-        self.h[name].add(h64(obj))
+    def mark(self, name, obj, unique=False):
+        """Count a distinct case.  unique=True: the caller guarantees no other unit (and no earlier call) reports the
+        same case, so it is counted without shipping a hash to the parent."""
+        if unique:
+            self.n["#" + name] += 1
+        else:
+            self.h[name].add(h64(obj))
 
     def sample(self, obj):
         if len(self.samples) < self.MAX_SAMPLES:
@@ -279,7 +285,7 @@ class Acc:
                 self.samples.append(s)
 
     def distinct(self, name):
-        return len(self.h.get(name, ()))
+        return len(self.h.get(name, ())) + int(self.n.get("#" + name, 0))
 
 
 # --------------------------------------------------------------------------------------------------
@@ -342,7 +348,15 @@ def run_units(modname: str, units: list, nproc: int = NPROC, progress=None) -> A
         return acc
     ctx = mp.get_context("fork")
     with ctx.Pool(min(nproc, len(units)), initializer=_worker_init) as pool:
-        for p in pool.imap_unordered(_call, [(modname, u) for u in units], chunksize=1):
+        it = pool.imap_unordered(_call, [(modname, u) for u in units], chunksize=1)
+        while True:
+            try:
+                p = it.next(timeout=UNIT_STALL_S)
+            except StopIteration:
+                break
+            except mp.TimeoutError:
+                pool.terminate()
+                raise HarnessError(f"no work unit finished within {UNIT_STALL_S}s (a worker is stuck outside the Python-level watchdog)")
             if "harness_error" in p:
                 pool.terminate()
                 raise HarnessError(p["harness_error"] + " in unit " + p["unit"])
